@@ -37,7 +37,7 @@ def _opts():
     return SolverOptions(newton_atol=1e-10, newton_rtol=1e-10, fixed_point_atol=1e-10, fixed_point_rtol=1e-10, fixed_point_max_iter=5000)
 
 
-def build(scen, t0=0.0):
+def build(scen, t0=0.0, nsteps=12):
     from cardillo import System
     from cardillo.discrete import RigidBody, PointMass
     from cardillo.constraints import Revolute, Spherical
@@ -63,11 +63,16 @@ def build(scen, t0=0.0):
         j1 = Revolute(system.origin, b1, 1, r_OJ0=np.zeros(3), A_IJ0=np.eye(3), name="rev")
         j2 = Spherical(b1, b2, r_OJ0=np.array([1.0, 0, 0]), name="sph")
         system.add(b1, b2, j1, j2, Force(1.0 * g, b1, name="g1"), Force(0.7 * g, b2, name="g2"))
-    elif scen in ("rev_spring_force", "rev_spring_compliance", "rev_kv", "rev_pd"):
+    elif scen in ("rev_spring_force", "rev_spring_compliance", "rev_kv", "rev_pd", "rev_kv_fast", "rev_kv_back"):
         A0 = quat_to_A(axis_angle_quat([0.3, -1.2, 2.0], 0.7))
         p0 = axis_angle_quat([0.3, -1.2, 2.0], 0.7)
         r0 = np.array([0.2, 0.1, -0.3])
-        om = A0.T @ (A0[:, 2] * 2.5)  # spin about the joint axis (e_z of the joint frame), body-fixed components
+        spin = 2.5
+        if scen == "rev_kv_fast":
+            spin = 5.5 / (nsteps * DT)  # the run sweeps the relative angle through all four quadrants and ends in the fourth
+        if scen == "rev_kv_back":
+            spin = -3.0 / (nsteps * DT)  # backwards beyond -pi/2: outside the range a freshly reset angle tracker can recover
+        om = A0.T @ (A0[:, 2] * spin)  # spin about the joint axis (e_z of the joint frame), body-fixed components
         b = RigidBody(1.2, np.diag([0.4, 0.5, 0.6]), np.concatenate([r0, p0]), np.concatenate([np.zeros(3), om]), name="b")
         j = Revolute(system.origin, b, 2, angle0=0.9, r_OJ0=r0, A_IJ0=A0, name="rev")
         system.add(b, j)
@@ -75,7 +80,7 @@ def build(scen, t0=0.0):
             system.add(Spring(j, 20.0, l_ref=0.2, compliance_form=False, name="spring"))
         elif scen == "rev_spring_compliance":
             system.add(Spring(j, 20.0, l_ref=0.2, compliance_form=True, name="spring"))
-        elif scen == "rev_kv":
+        elif scen in ("rev_kv", "rev_kv_fast", "rev_kv_back"):
             system.add(KelvinVoigtElement(j, 20.0, 0.5, l_ref=0.2, compliance_form=False, name="kv"))
         else:
             system.add(PDcontroller(j, 15.0, 0.8, np.array([1.5, 0.0])))
@@ -100,7 +105,7 @@ def build(scen, t0=0.0):
     return system
 
 
-SCENARIOS = ["chain", "rev_spring_force", "rev_spring_compliance", "rev_kv", "rev_pd", "maxwell", "ball_plane", "two_spheres"]
+SCENARIOS = ["chain", "rev_spring_force", "rev_spring_compliance", "rev_kv", "rev_pd", "rev_kv_fast", "rev_kv_back", "maxwell", "ball_plane", "two_spheres"]
 CONTACT = {"ball_plane", "two_spheres"}
 SOLVERS = ["Rattle", "BackwardEuler", "Moreau", "ScipyIVP"]
 
@@ -170,7 +175,7 @@ def check(case):
     scen, solver, N = case["scen"], case["solver"], case["N"]
     fails = []
     letters = {"scen": scen, "solver": solver}
-    ref_sys = build(scen)
+    ref_sys = build(scen, nsteps=N)
     ref = run(ref_sys, solver, N)
     t_ref, q_ref, u_ref = np.asarray(ref.t), np.asarray(ref.q), np.asarray(ref.u)
     if len(t_ref) != N + 1:
@@ -182,15 +187,22 @@ def check(case):
     excluded = 0
     worst = {}
     outcomes = set()
-    for k in range(1, N):
+    for k, variant in [(k, v) for k in range(1, N) for v in ("copy_after_first_leg", "copy_after_full_run")]:
         evals += 1
-        s1 = build(scen)
-        leg1 = run(s1, solver, k)
-        qk, uk, tk = np.asarray(leg1.q)[-1], np.asarray(leg1.u)[-1], float(np.asarray(leg1.t)[-1])
-        d1 = max(np.max(np.abs(qk - q_ref[k])), np.max(np.abs(uk - u_ref[k])))
-        if d1 > 1e-8:  # leg 1 is a prefix of the uninterrupted run (fixed-step solvers: exactly)
-            fails.append({"site": "first leg is not a prefix of the uninterrupted run", "msg": f"{letters} k={k}: {d1:.2e}", "data": dict(letters, k=k)})
-            continue
+        letters = {"scen": scen, "solver": solver, "variant": variant}
+        if variant == "copy_after_first_leg":
+            s1 = build(scen, nsteps=N)
+            leg1 = run(s1, solver, k)
+            qk, uk, tk = np.asarray(leg1.q)[-1], np.asarray(leg1.u)[-1], float(np.asarray(leg1.t)[-1])
+            d1 = max(np.max(np.abs(qk - q_ref[k])), np.max(np.abs(uk - u_ref[k])))
+            if d1 > 1e-8:  # leg 1 is a prefix of the uninterrupted run (fixed-step solvers: exactly)
+                fails.append({"site": "first leg is not a prefix of the uninterrupted run", "msg": f"{letters} k={k}: {d1:.2e}", "data": dict(letters, k=k)})
+                continue
+        else:
+            # the copy is taken from the system object that performed the whole uninterrupted run (its history-dependent
+            # internals - angle trackers, caches, contact bases - are those of the END of the run, not of the split state)
+            s1 = ref_sys
+            qk, uk, tk = q_ref[k].copy(), u_ref[k].copy(), float(t_ref[k])
         try:
             with quiet():
                 s2 = s1.deepcopy()
@@ -213,13 +225,18 @@ def check(case):
                           "data": dict(letters, k=k, exc=type(e).__name__)})
             continue
         # (b) model identity along the remaining states of the uninterrupted run
-        s0 = build(scen)
+        s0 = build(scen, nsteps=N)
         with quiet():
             for j in range(0, k + 1):  # walk the original system to the split state (history-dependent trackers)
                 _model_eval(s0, t_ref[j], q_ref[j], u_ref[j])
             bad_fields = {}
+            rel_angle = None
             for j in range(k, N + 1):
                 a = _model_eval(s0, t_ref[j], q_ref[j], u_ref[j])
+                if j == k:
+                    for c in s0.contributions:
+                        if hasattr(c, "angle0") and f"angle[{c.name}]" in a:
+                            rel_angle = float(a[f"angle[{c.name}]"][0] - c.angle0)  # accumulated relative rotation at the split
                 b = _model_eval(s2, t_ref[j], q_ref[j], u_ref[j])
                 for key in a:
                     if key not in b:
@@ -233,7 +250,7 @@ def check(case):
         for key, d in sorted(bad_fields.items()):
             kk = key.split("[")[0]
             fails.append({"site": f"re-initialised copy describes a different model: {kk} differs", "msg": f"{letters} k={k}: max |{key} copy - original| = {d:.3e} along the remaining states",
-                          "data": dict(letters, k=k, field=key, diff=d)})
+                          "data": dict(letters, k=k, field=key, diff=d, rel_angle_at_split=rel_angle)})
         # (a) trajectory
         try:
             leg2 = run(s2, solver, N - k)
@@ -256,7 +273,7 @@ def check(case):
         max_traj = max(max_traj, dmax)
         if dmax > TOL:
             fails.append({"site": "restarted trajectory differs from the uninterrupted run", "msg": f"{letters} k={k}: max deviation {dmax:.3e}",
-                          "data": dict(letters, k=k, dev=dmax)})
+                          "data": dict(letters, k=k, dev=dmax, rel_angle_at_split=rel_angle)})
     seen, cnt = {}, {}
     for f in fails:
         cnt[f["site"]] = cnt.get(f["site"], 0) + 1
